@@ -260,6 +260,22 @@ def h_function_power(E, idx):
     return 'ok'
 
 
+TINY = [('exp(-800)', 0.0), ('1+exp(-745.5)', 1.0), ('exp(-x^2)', 0.0), ('1e-200*[1e-200,1]', [0.0, 1e-200]), ('[1,2e-170]/5e150', [2e-151, 0.0]), ('1e-200*1e-200', 0.0),
+        ('2^-1080', 0.0), ('sin(1e-320)', 1e-320), ('exp(-800)*exp(800-800)', 0.0), ('(1e-300)^2+1', 1.0)]
+
+
+def h_tiny(E, idx):
+    """results too small for a double are the number they round to (zero, or a subnormal): underflow is not an error"""
+    from mitxgraders.helpers.calc.expressions import evaluator, DEFAULT_FUNCTIONS, DEFAULT_SUFFIXES
+    expr, want = TINY[idx]
+    got, _ = evaluator(expr, {'x': 30.0}, DEFAULT_FUNCTIONS, DEFAULT_SUFFIXES, max_array_dim=1)
+    if isinstance(want, list):
+        E.check('underflow-gives-the-rounded-value', len(got) == len(want) and all(abs(float(g) - w) <= 1e-12 * (abs(w) + 1e-300) + 1e-310 for g, w in zip(got, want)))
+    else:
+        E.check('underflow-gives-the-rounded-value', abs(float(got) - want) <= 1e-12 * abs(want) + 1e-310)
+    return 'ok'
+
+
 def h_undefined(E, name):
     from mitxgraders.helpers.calc.expressions import evaluator, DEFAULT_FUNCTIONS, DEFAULT_SUFFIXES
     from mitxgraders.helpers.calc.exceptions import UndefinedVariable, UndefinedFunction
@@ -596,6 +612,8 @@ def harnesses(tier):
             hs[-1].params = (lit.strip(), suf)
     for form in ('sum', 'constants', 'mixed'):
         add(h_names, 'names', dict(form=form), '10 symbolic variables with confusable names')
+    for i in range(len(TINY)):
+        add(h_tiny, 'tiny', dict(i=i), TINY[i][0], validate=False)
     for i in range(len(FUNC_POW)):
         add(h_function_power, 'function_power', dict(i=i), FUNC_POW[i], validate=False)
     for i in range(len(_bindings())):
